@@ -1,0 +1,17 @@
+//go:build verif
+
+package db
+
+// Hooks for the verification harness (build tag "verif"); never compiled into
+// production binaries.
+
+// NewDBWithBackend wraps a caller-supplied backend into a DB, the way Open does
+// for the cdb and rocksdb drivers.
+func NewDBWithBackend(dbi DBI) *DB {
+	return &DB{dbi: dbi}
+}
+
+// SeedWRS seeds the private random source of the weighted random sample.
+func SeedWRS(seed int64) {
+	localRand.Seed(seed)
+}
